@@ -9,6 +9,7 @@ import Peppi.Lemmas.C10A
 import Peppi.Lemmas.PeppiRound
 import Peppi.Lemmas.Example
 import Peppi.Lemmas.Unified2
+import Peppi.SlppBytes
 set_option linter.unusedVariables false
 namespace Peppi.Props.C10
 
@@ -133,5 +134,14 @@ theorem C10_rewrite_any (T : TextOracle) (r : Replay) (s : Start) (gk : Option G
       readSlp T {} (r.skipped.encodeAny s.version (portOccupancy s) none) = .ok { gSkip with hashedLen := none } ∧
       readSlp T { skipFrames := true } (r.skipped.encodeAny s.version (portOccupancy s) none) = .ok { gSkip with hashedLen := none } :=
   _root_.Peppi.C10_rewrite_any T r s gk h hmax e hfe hash
+
+/- from `Peppi.SlppBytes` -/
+theorem slppRead_written {χ : Type} (C : Codec χ) (T : TextOracle) (g : PGame χ) (startBytes : Bytes) (endBytes : Option Bytes)
+    (hstart : gameStart T startBytes = .ok g.start)
+    (hend : endBytes.map gameEnd = g.fend.map Res.ok)
+    (hgecko : ∀ c, g.gecko = some c → c.2 < 2 ^ 32)
+    (hs : SizesOK C g startBytes endBytes) (skip : Bool) :
+    slppRead C T skip (slppWrite C g startBytes endBytes) = .ok (if skip then { g with frames := none } else g) :=
+  _root_.Peppi.slppRead_written C T g startBytes endBytes hstart hend hgecko hs skip
 
 end Peppi.Props.C10
